@@ -182,7 +182,7 @@ def engine(P, *, where=(False, None), group_indexes=None, having=None, having_cl
                 return term.args[0] == 'in'
             return (key_state == 'existing') == (term.args[0] == 'in')
         return None
-    return Engine(P, on_attr=on_attr, on_call=on_call, on_item=on_item, oracle=oracle, max_paths=512)
+    return Engine(P, on_attr=on_attr, on_call=on_call, on_item=on_item, oracle=oracle, max_paths=512, mutable_dicts=False)
 
 
 def _paths(P, fi, **kw):
